@@ -213,6 +213,45 @@ theorem ConcatFlagged.of_eq {l' : List Info} {i : Nat} {x : Info}
   rw [if_pos rfl]
   exact orMask2_concat x
 
+/-- `_set_glyph_flags(.., interior, from_out_buffer = true)` on a buffer WITHOUT output (in-place lookups: reverse chaining,
+    GPOS) is the one-sided call on `info[s, e)`; unlike `unsafe_to_break` it has no early return for short ranges. -/
+theorem setGlyphFlags_interior_noOutput (b : Buf) (mask s e : Nat) (hho : b.haveOutput = false) (hse : s < e) (he : e ≤ b.len)
+    (hlen : b.len ≤ b.info.length)
+    (hu32 : ∀ j x, s ≤ j → j < e → b.info[j]? = some x → x.cluster ≤ U32MAX) (hmono : MonoRange b.info s e) :
+    ∃ info r, b.setGlyphFlags mask s (some e) true true =
+        .ok { b with info := info, scratch := b.scratch ||| SCRATCH_HAS_GLYPH_FLAGS } ∧
+      IsRangeMin b.info s e r ∧ Upd b.info info s e (neCl r) (orMask mask) := by
+  have hel : e ≤ b.info.length := by omega
+  obtain ⟨r, hr, hr1, hr2, hr3, hr4⟩ := findMinCluster_spec b.level b.info s e U32MAX (by omega) hel
+  obtain ⟨l', ch, p, q, hi, hp1, hp2, hp3, hu, hw⟩ := infosSetGlyphFlags_spec b.level b.info s e r mask (by omega) hel
+  have hatt : ∃ j x, s ≤ j ∧ j < e ∧ b.info[j]? = some x ∧ x.cluster = r := by
+    rcases hr2 with h | h
+    · have hs : s < b.info.length := by omega
+      have hx : b.info[s]? = some b.info[s] := List.getElem?_eq_getElem hs
+      have hle := hu32 s b.info[s] (Nat.le_refl _) (by omega) hx
+      have hge := hr4 b.info[s] hx
+      exact ⟨s, b.info[s], Nat.le_refl _, by omega, hx, by omega⟩
+    · exact h
+  refine ⟨l', r, ?_, ⟨hr3 (Or.inr hmono), hatt⟩,
+    Upd.widen hu hp1 hp3 (window_exact hmono (hr3 (Or.inr hmono)) hp1 hp2 hp3 hel hw)⟩
+  have hmin : min e b.len = e := by omega
+  simp only [Buf.setGlyphFlags, Option.getD_some, hmin, hho, Bool.not_true, Bool.and_false, Bool.false_and,
+    Bool.false_eq_true, if_false, Bool.not_false, Bool.or_true, if_true, hr, hi, bind, Except.bind, pure, Except.pure]
+  cases ch with
+  | true => simp [Buf.addScratch, or_scratch]
+  | false => simp [Buf.addScratch]
+
+theorem setGlyphFlags_plain_noOutput (b : Buf) (mask s e : Nat) (hho : b.haveOutput = false) :
+    b.setGlyphFlags mask s (some e) false true = b.setGlyphFlags mask s (some e) false false := by
+  simp [Buf.setGlyphFlags, hho]
+
+/-- what a read of the reverse-chaining subtable is, after the flag call left the glyph array `l'`: an in-buffer glyph of
+    `[idx, e)` or — in-place lookups have no out-buffer, the backtrack runs over `info[.., idx)` — a glyph of `[st, idx)`,
+    in both cases satisfying `P` (flagged) -/
+def RevRead (c : Ctx) (st e : Nat) (P : Nat → Info → Prop) (x : Rd) : Prop :=
+  (∃ i y, x = .inp i ∧ c.buf.idx ≤ i ∧ i < e ∧ c.buf.info[i]? = some y ∧ P i y) ∨
+  (∃ j y, x = .out j ∧ st ≤ j ∧ j < c.buf.idx ∧ c.buf.info[j]? = some y ∧ P j y)
+
 /-- a list sorted by cluster is monotone on every range -/
 theorem MonoRange.of_pairwise {l : List Info} (h : l.Pairwise (fun a b => a.cluster ≤ b.cluster)) (s e : Nat) :
     MonoRange l s e := by
@@ -264,5 +303,15 @@ def ligCtx (markVar1 : Nat) : Ctx :=
              len := 4, haveOutput := true, flags := 64 },
     font := { hasGdef := true, hasGlyphClasses := true, glyphProps := [(1, 2), (20, 4), (10, 8), (99, 4)] },
     lookupProps := 4 }
+
+/-- an in-place buffer (no out-buffer: what a reverse-chaining lookup runs on): 5, mark, 1, mark, 3 with the cursor on
+    glyph 1 (index 2); IgnoreMarks; PRODUCE_UNSAFE_TO_CONCAT requested -/
+def revCtx : Ctx :=
+  { buf := { info := [{ gid := 5, mask := 1, cluster := 0, var1 := 2 }, { gid := 10, mask := 1, cluster := 1, var1 := 8 },
+                      { gid := 1, mask := 1, cluster := 2, var1 := 2 }, { gid := 10, mask := 1, cluster := 3, var1 := 8 },
+                      { gid := 3, mask := 1, cluster := 4, var1 := 2 }],
+             len := 5, idx := 2, flags := 64 },
+    font := { hasGdef := true, hasGlyphClasses := true, glyphProps := [(1, 2), (3, 2), (5, 2), (7, 2), (10, 8)] },
+    lookupProps := 8 }
 
 end RbModel.Gsub
